@@ -58,6 +58,14 @@ CLAIMS = {
         "text": "Theorems `dec_total` (decoding never panics, for every type and byte string), `dec_consumes_prefix`/`dec_rest_length_le`/`dec_reads_only_prefix` (the cursor only moves forward inside the input; the result depends only on the consumed prefix), `borrow_position_str/_bytes/_tuple` + `tuple_component_position` (a borrowed payload sits in the input right after its length varint, components occupy consecutive sub-ranges), `wont_implement` (any/identifier/ignored are refused), `hint_le_remaining`/`prealloc_bound`/`prealloc_bytes_le` (the pre-allocation a sequence visitor makes is bounded by the remaining input bytes whatever length the input claims), `dec_minBytes`/`elements_lt_consumed`/`elements_le_bytes`/`str_payload_le` (element counts and payload lengths are bounded by the input length for element types occupying >= 1 byte). PARTIAL: real out-of-bounds reads and real allocation are observed at run time (guard pages on both sides of the input and around the reader scratch buffer, counting allocator on 10 concrete heap types with adversarial length prefixes up to u64::MAX), not proved.",
         "note": GENERIC_NOTE + " Memory safety of the unsafe pointer code and allocator behaviour are runtime facts outside any executable model; serde's cautious() and Vec growth are modelled.",
     },
+    "C12": {
+        "text": "Theorem `max_size_sound`: for EVERY type built from the MaxSize impls (all built-ins, heapless containers at any capacity, derived structs and enums with any number of variants, nested to any depth) and EVERY value inhabiting it (incl. the NonZero / capacity restrictions), (enc v).length <= maxSize m — induction over the type grammar using `varint_len_le_size` and `varint_len_le_discriminant`; `max_size_tight(_witness)`: for integers, floats, bool, char, arrays, tuples, options, ranges, refs, fixed-capacity strings/vectors, Result and structs thereof an explicit witness attains the maximum; `denum128_not_tight` documents that derived enums over-approximate (count, not count-1); `inhabits_iff_hasTy` guards the value predicate. The constants are tied to the code by reading T::POSTCARD_MAX_SIZE of 66 built-in instantiations and seed-generated derive programs each run.",
+        "note": GENERIC_NOTE + " const-evaluation overflow is a compile error in Rust and is not modelled (Nat arithmetic).",
+    },
+    "C13": {
+        "text": "Theorems `fixint_le` / `fixint_be` (the adapter's encoding is exactly the little-/big-endian bytes of the integer's two's-complement bit pattern), `fixint_length` (exactly size_of bytes whatever the magnitude), `fixint_never_varint(_unsigned/_signed)` (never equal to the varint encoding), `fixint_roundtrip_le/_be` (decoding returns the original integer with the remainder intact) for all widths 16..128, both signs, every in-range value.",
+        "note": GENERIC_NOTE,
+    },
 }
 
 _PENDING = "not claimed yet: the technique applies (see DESIGN.md §6); model/correspondence for this property is still being built in this session"
